@@ -55,11 +55,14 @@ func (c *decoratorController) callHook(
 		if err := c.finalizeHook.Call(requestBuilder.IsFinalizing().Build(), &response); err != nil {
 			return nil, fmt.Errorf("finalize hook failed: %w", err)
 		}
-	} else {
+	} else if c.syncHook.IsEnabled() {
 		// Sync
 		if err := c.syncHook.Call(requestBuilder.Build(), &response); err != nil {
 			return nil, fmt.Errorf("sync hook failed: %w", err)
 		}
+	} else {
+		// Neither of the hooks was called
+		return nil, nil
 	}
 
 	for _, child := range response.Attachments {
